@@ -1,6 +1,29 @@
 """Operation histories for the DomainOps specification: seeded generator, and the merge of
 histories with the observations recorded by harness/dom_replay into TLC trace records."""
-import json
+import json, re
+
+
+def _vars_of(st):
+    """all variable indices mentioned in a statement record"""
+    out = set()
+
+    def walk(o):
+        if isinstance(o, dict):
+            for k, v in o.items():
+                if k in ("x", "y", "c") and isinstance(v, int):
+                    out.add(v)
+                elif k == "z" and isinstance(v, int) and o.get("zk", 0) == 0:
+                    out.add(v)
+                elif k == "t" and isinstance(v, list):
+                    for term in v:
+                        out.add(term[1])
+                else:
+                    walk(v)
+        elif isinstance(o, list):
+            for e in o:
+                walk(e)
+    walk(st)
+    return out
 
 COEFS = [-2, -1, 1, 1, 2]
 
@@ -27,6 +50,20 @@ def operand(rng, ints, kmax=3):
 def stmt(rng, ints, bools, profile="full", lhs=None):
     """a random CrabIR statement; lhs = integer variables that may be written (default: all)"""
     W = lhs if lhs is not None else ints
+    if profile == "rel":
+        # relational profile: chains of unit-coefficient difference / sum constraints with small (often negative)
+        # constants, constant assignments and x := y + c: what zones / octagons closure code is made of
+        k = rng.choice(["assume"] * 6 + ["assignc", "assignc", "assignv", "havoc"])
+        if k == "assume":
+            a, b = rng.sample(ints, 2)
+            sa, sb = rng.choice([(1, -1), (1, -1), (1, 1), (-1, -1), (1, 0), (-1, 0)])
+            t = [[sa, a]] + ([[sb, b]] if sb else [])
+            return {"op": "assume", "c": {"e": {"k": rng.randint(-4, 4), "t": t}, "r": rng.choice(["le", "le", "le", "lt", "eq"])}}
+        if k == "assignc":
+            return {"op": "assign", "x": rng.choice(W), "e": {"k": rng.randint(-4, 4), "t": []}}
+        if k == "assignv":
+            return {"op": "assign", "x": rng.choice(W), "e": {"k": rng.randint(-2, 2), "t": [[rng.choice([1, 1, -1]), rng.choice(ints)]]}}
+        return {"op": "havoc", "x": rng.choice(W)}
     if profile == "c17":
         # statements that change magnitudes by at most a constant (no var+var, no multiplication): executions
         # of bounded length cannot leave the universe (needed by spec/Transform.tla, spec/NonInterf.tla)
@@ -110,6 +147,23 @@ def history(rng, hid, nints=3, nbools=1, nregs=3, length=10, profile="c03", stmt
     cut = [sum(w[:i + 1]) / tot for i in range(5)]
     steps = []
     regs = list(range(1, nregs + 1))
+
+    def touched(upto):
+        """variables possibly constrained in each register after the first `upto` steps (conservative)"""
+        t = {r: set() for r in regs}
+        for st in steps[:upto]:
+            op = st["op"]
+            if op == "stmt":
+                t[st["r"]] |= _vars_of(st["s"])
+            elif op in ("forget", "project", "rename", "expand"):
+                t[st["r"]] |= set(ints + bools)
+            elif op in ("join", "meet", "widen", "widenjoin", "narrow"):
+                t[st["r"]] = t[st["a"]] | t[st["b"]]
+            elif op == "copy":
+                t[st["r"]] = set(t[st["a"]])
+            elif op in ("top", "bottom"):
+                t[st["r"]] = set()
+        return t
     # start every register from an explicit (often bounded) value so that histories are not all-top
     for r in regs:
         for _ in range(rng.choice([0, 1, 2])):
@@ -146,6 +200,39 @@ def history(rng, hid, nints=3, nbools=1, nregs=3, length=10, profile="c03", stmt
             if k == "widen" and rng.random() < 0.3:
                 d["ts"] = sorted(rng.sample(range(-4, 6), rng.randint(0, 3)))
             steps.append(d)
+            if k == "copy" and profile == "c16" and a != d["r"]:
+                # C16: the FIRST mutating operation after a copy, on either side, drawn from every kind of mutator
+                # (copy-on-write wrappers and structure-sharing trees must detach in each of them)
+                t = rng.choice([a, d["r"]])
+                m = rng.choice(["stmt", "stmt", "forget", "project", "rename", "expand", "normalize", "minimize", "joini", "meeti",
+                                "top", "bottom"])
+                allv = ints + bools
+                if m == "stmt":
+                    steps.append({"op": "stmt", "r": t, "s": stmt(rng, ints, bools, stmt_profile)})
+                elif m == "forget":
+                    steps.append({"op": "forget", "r": t, "vs": rng.sample(allv, rng.randint(1, 2))})
+                elif m == "project":
+                    steps.append({"op": "project", "r": t, "vs": rng.sample(allv, rng.randint(1, len(allv) - 1))})
+                elif m in ("rename", "expand"):
+                    tv = touched(len(steps))[t]
+                    free = [v for v in ints if v not in tv]
+                    used = [v for v in ints if v in tv]
+                    if free and used:      # raw: the target variable was never constrained in this register
+                        x, y = rng.choice(used), rng.choice(free)
+                        raw = 1
+                    else:
+                        x, y = rng.sample(ints, 2)
+                        raw = 0
+                    if m == "rename":
+                        steps.append({"op": "rename", "r": t, "from": [x], "to": [y], "raw": raw})
+                    else:
+                        steps.append({"op": "expand", "r": t, "x": x, "y": y, "raw": raw})
+                elif m in ("normalize", "minimize"):
+                    steps.append({"op": m, "r": t})
+                elif m in ("joini", "meeti"):
+                    steps.append({"op": "join" if m == "joini" else "meet", "r": t, "a": t, "b": rng.choice(regs), "inplace": 1})
+                else:
+                    steps.append({"op": m, "r": t, "inplace": 1})
         elif p < cut[3]:
             steps.append({"op": rng.choice(["normalize", "minimize", "query"]), "r": r})
         else:
@@ -201,6 +288,56 @@ def chain_history(rng, hid, n=40, params=None):
         steps.append({"op": "leq", "r": 0, "a": 3, "b": 1, "chain": 1})
         steps.append({"op": "copy", "r": 1, "a": 3})
     h = {"id": hid, "vars": vars_, "nregs": 3, "steps": steps, "stutter": 0, "chain": 1}
+    if params:
+        h["params"] = params
+    return h
+
+
+def _vars4():
+    return [{"n": n, "t": "int"} for n in ("x", "y", "z", "w")]
+
+
+def chain_closure_history(rng, hid, params=None):
+    """directed family (C03): a chain of unit-coefficient constraints over up to 4 variables added in a random order to
+    one register (incremental closure of zones/octagons), followed by entailment queries on the end points"""
+    ints = [1, 2, 3, 4]
+    vs = rng.sample(ints, rng.choice([3, 4, 4]))
+    steps = []
+    cs = []
+    for a, b in zip(vs, vs[1:]):
+        sa, sb = rng.choice([(1, -1), (1, -1), (-1, 1), (1, 1), (-1, -1)])
+        cs.append({"e": {"k": rng.randint(-3, 3), "t": [[sa, a], [sb, b]]}, "r": rng.choice(["le", "le", "lt", "eq"])})
+    for v in rng.sample(vs, rng.randint(0, 2)):
+        cs.append({"e": {"k": rng.randint(-3, 3), "t": [[rng.choice([1, -1]), v]]}, "r": "le"})
+    rng.shuffle(cs)
+    for c in cs:
+        steps.append({"op": "stmt", "r": 1, "s": {"op": "assume", "c": c}})
+        if rng.random() < 0.15:
+            steps.append({"op": rng.choice(["normalize", "query"]), "r": 1})
+    a, b = vs[0], vs[-1]
+    for _ in range(2):
+        sa, sb = rng.choice([(1, -1), (-1, 1), (1, 1), (-1, -1)])
+        steps.append({"op": "entails", "r": 1, "c": {"e": {"k": rng.randint(-4, 4), "t": [[sa, a], [sb, b]]}, "r": "le"}})
+    h = {"id": hid, "vars": _vars4(), "nregs": 2, "steps": steps, "stutter": 0}
+    if params:
+        h["params"] = params
+    return h
+
+
+def point_leq_history(rng, hid, params=None):
+    """directed family (C04): register 1 = a point of two variables (constant assignments, incl. negative values),
+    register 2 = one or two unit-coefficient constraints on them; inclusion tests both ways, join, meet"""
+    ints = [1, 2, 3, 4]
+    a, b = rng.sample(ints, 2)
+    steps = [{"op": "stmt", "r": 1, "s": {"op": "assign", "x": a, "e": {"k": rng.randint(-4, 4), "t": []}}},
+             {"op": "stmt", "r": 1, "s": {"op": "assign", "x": b, "e": {"k": rng.randint(-4, 4), "t": []}}}]
+    for _ in range(rng.choice([1, 1, 2])):
+        sa, sb = rng.choice([(1, 1), (-1, -1), (1, -1), (-1, 1), (1, 0), (-1, 0)])
+        t = [[sa, a]] + ([[sb, b]] if sb else [])
+        steps.append({"op": "stmt", "r": 2, "s": {"op": "assume", "c": {"e": {"k": rng.randint(-8, 8), "t": t}, "r": rng.choice(["le", "le", "lt", "eq"])}}})
+    steps += [{"op": "leq", "r": 0, "a": 1, "b": 2}, {"op": "leq", "r": 0, "a": 2, "b": 1},
+              {"op": rng.choice(["join", "meet"]), "r": 2, "a": 1, "b": 2}, {"op": "leq", "r": 0, "a": 1, "b": 2}]
+    h = {"id": hid, "vars": _vars4(), "nregs": 2, "steps": steps, "stutter": 0}
     if params:
         h["params"] = params
     return h
